@@ -335,3 +335,61 @@ def exec_returns(fn, params_opaque=True):
         return env
     run([s for s in fn.body], {}, [])
     return out
+
+
+def exec_stores(stmts):
+    """Symbolic execution of a loop-free statement list: [(store statement, target text, value expression with every local
+    written out, path conditions)] for stores into attributes / subscripts; locals assigned under `if` become conditional
+    expressions (as in exec_returns)."""
+    out = []
+
+    def sub(e, env):
+        return _EnvSub(env).visit(_cp(e))
+
+    def run(stmts_, env, conds):
+        for st in stmts_:
+            if isinstance(st, (ast.Expr, ast.Pass)):
+                continue
+            if isinstance(st, ast.Assign) and len(st.targets) == 1:
+                t = st.targets[0]
+                if isinstance(t, ast.Name):
+                    env = dict(env)
+                    env[t.id] = sub(st.value, env)
+                else:
+                    out.append((st, pyfe.src(sub(t, env)) if not isinstance(t, ast.Name) else t.id, sub(st.value, env), list(conds)))
+            elif isinstance(st, ast.AugAssign):
+                if isinstance(st.target, ast.Name):
+                    env = dict(env)
+                    cur = env.get(st.target.id, ast.Name(id=st.target.id, ctx=ast.Load()))
+                    env[st.target.id] = ast.BinOp(left=_cp(cur), op=st.op, right=sub(st.value, env))
+                else:
+                    out.append((st, pyfe.src(sub(st.target, env)), ast.BinOp(left=sub(st.target, env), op=st.op,
+                                                                              right=sub(st.value, env)), list(conds)))
+            elif isinstance(st, ast.If):
+                t = sub(st.test, env)
+                a = run(st.body, env, conds + [(t, True)])
+                b = run(st.orelse, env, conds + [(t, False)])
+                if a is None and b is None:
+                    return None
+                if a is None:
+                    env = b
+                elif b is None:
+                    env = a
+                else:
+                    merged = {}
+                    for k in set(a) | set(b):
+                        va, vb = a.get(k), b.get(k)
+                        if va is None or vb is None:
+                            merged[k] = va if va is not None else vb
+                        elif pyfe.src(va) == pyfe.src(vb):
+                            merged[k] = va
+                        else:
+                            merged[k] = ast.IfExp(test=_cp(t), body=va, orelse=vb)
+                    env = merged
+            elif isinstance(st, (ast.Continue, ast.Break, ast.Return, ast.Raise)):
+                return None
+            else:
+                raise NotModelled(type(st).__name__ + ": " + pyfe.src(st)[:60])
+        return env
+    run(list(stmts), {}, [])
+    return out
